@@ -20,9 +20,10 @@ type e2eCase struct {
 	Op   string  `json:"op"` // "findcontent" | "offer"
 	VA   []uint8 `json:"versions_a,omitempty"`
 	VBs  []uint8 `json:"versions_b,omitempty"`
-	Size int     `json:"size,omitempty"` // findcontent: content size
-	Keys int     `json:"keys,omitempty"` // offer: number of keys
-	Drop int     `json:"drop"`           // index of the datagram that is lost (-1: none)
+	Size int     `json:"size,omitempty"`      // findcontent: content size
+	Keys int     `json:"keys,omitempty"`      // offer: number of keys
+	Drop int     `json:"drop"`                // index of the datagram that is lost (-1: none)
+	Dev  string  `json:"deviation,omitempty"` // "" = lost, "dup" = delivered twice, "swap" = delivered after its successor
 }
 
 func versionSets() [][]uint8 { return [][]uint8{{0}, {1}, {0, 1}} }
@@ -45,8 +46,19 @@ func e2eRun(r *mc.Report, c e2eCase, finish func(digest string)) (digest string,
 		w := newWire()
 		a := newMNode(w, mnodeOpts{keyIdx: 31, versions: c.VA, utpLimit: 5})
 		b := newMNode(w, mnodeOpts{keyIdx: 32, versions: c.VBs, utpLimit: 5})
+		swapped := false
 		decide := func(idx int, d mdgram) pumpAction {
 			if idx == c.Drop {
+				switch c.Dev {
+				case "dup":
+					return duplicate
+				case "swap":
+					if !swapped {
+						swapped = true
+						return swapNext
+					}
+					return deliver
+				}
 				return drop
 			}
 			return deliver
@@ -54,7 +66,7 @@ func e2eRun(r *mc.Report, c e2eCase, finish func(digest string)) (digest string,
 		share := shareVersion(c.VA, c.VBs)
 		site := fmt.Sprintf("%s:%v-%v", c.Op, c.VA, c.VBs)
 		if c.Drop >= 0 {
-			site = c.Op + ":one-datagram-lost"
+			site = c.Op + ":one-datagram-" + map[string]string{"": "lost", "dup": "duplicated", "swap": "reordered"}[c.Dev]
 		}
 		switch c.Op {
 		case "findcontent":
@@ -81,8 +93,8 @@ func e2eRun(r *mc.Report, c e2eCase, finish func(digest string)) (digest string,
 				viol("peer-ends-up-with-the-stored-bytes", site, fmt.Sprintf("asked for %d stored bytes, got %d other bytes (flag %d)", len(content), len(got), flag))
 			case err == nil && !isBytes:
 				viol("held-content-is-returned", site, fmt.Sprintf("the responder holds the content but the asker got %T", res))
-			case err != nil && share && c.Drop < 0:
-				viol("transfer-succeeds-between-nodes-sharing-a-version", site, fmt.Sprintf("%d bytes, fault-free link: %v", c.Size, err))
+			case err != nil && share && (c.Drop < 0 || c.Dev == "dup"):
+				viol("transfer-succeeds-between-nodes-sharing-a-version", site, fmt.Sprintf("%d bytes, no datagram lost: %v", c.Size, err))
 			case err == nil && !share && c.Size > 1200:
 				viol("no-transfer-without-a-common-version", site, "a large transfer succeeded although the version sets are disjoint")
 			}
@@ -115,7 +127,7 @@ func e2eRun(r *mc.Report, c e2eCase, finish func(digest string)) (digest string,
 				viol("accepted-content-arrives-intact-under-its-key", site, fmt.Sprintf("offered %d keys, the validation queue got %d keys / %d contents that differ", len(keys), len(el.ContentKeys), len(el.Contents)))
 			case el != nil && el.Node != a.Self().ID():
 				viol("accepted-content-arrives-intact-under-its-key", site, "the queue element names another source node")
-			case el == nil && share && c.Drop < 0:
+			case el == nil && share && (c.Drop < 0 || c.Dev == "dup"):
 				viol("transfer-succeeds-between-nodes-sharing-a-version", site, fmt.Sprintf("offer of %d fresh keys on a fault-free link delivered nothing (offer error: %v)", c.Keys, err))
 			case el != nil && !share:
 				viol("no-transfer-without-a-common-version", site, "content was delivered although the version sets are disjoint")
@@ -182,14 +194,18 @@ func e2eCasesFor(prop string, thorough bool) []e2eCase {
 	switch prop {
 	case "C08":
 		for _, v := range [][]uint8{{0}, {1}} {
-			for _, k := range lossIdx(66) {
-				cs = append(cs, e2eCase{Prop: prop, Op: "findcontent", VA: v, VBs: v, Size: 5000, Drop: k})
+			for _, dev := range []string{"", "dup", "swap"} {
+				for _, k := range lossIdx(66) {
+					cs = append(cs, e2eCase{Prop: prop, Op: "findcontent", VA: v, VBs: v, Size: 5000, Drop: k, Dev: dev})
+				}
 			}
 		}
 	case "C09":
 		for _, v := range [][]uint8{{0}, {1}} {
-			for _, k := range lossIdx(90) {
-				cs = append(cs, e2eCase{Prop: prop, Op: "offer", VA: v, VBs: v, Keys: 2, Drop: k})
+			for _, dev := range []string{"", "dup", "swap"} {
+				for _, k := range lossIdx(90) {
+					cs = append(cs, e2eCase{Prop: prop, Op: "offer", VA: v, VBs: v, Keys: 2, Drop: k, Dev: dev})
+				}
 			}
 		}
 	}
@@ -208,7 +224,7 @@ func e2eTask(r *mc.Report, e *Env, prop string, idx int) {
 		r.Sample(c)
 	}
 	e2eRun(r, c, func(d string) {
-		r.Exec(fmt.Sprintf("e2e|%s|%v|%v|%d|%d|drop=%v|%s", c.Op, c.VA, c.VBs, c.Size, c.Keys, c.Drop >= 0, d))
+		r.Exec(fmt.Sprintf("e2e|%s|%v|%v|%d|%d|drop=%v%s|%s", c.Op, c.VA, c.VBs, c.Size, c.Keys, c.Drop >= 0, c.Dev, d))
 		e.FinishNow(r)
 	})
 }
@@ -235,7 +251,7 @@ func init() {
 				}
 				oldRun(r, &he)
 				if e.Shard == 0 {
-					r.Assume("end-to-end part: two real started nodes on the in-memory wire, FIFO delivery; single-datagram loss at every (quick: every 3rd) index of one transfer per version; no reordering or duplication")
+					r.Assume("end-to-end part: two real started nodes on the in-memory wire, FIFO delivery; one datagram lost, duplicated or swapped with its successor at every (quick: every 3rd) index of one transfer per version")
 				}
 				return
 			}
